@@ -33,6 +33,10 @@ COMMENTS = ["a plain comment", "mV", "ms**-1", "pA*pF**-1", "1/ms", "42", "3.5",
             "\\xi(t) noise term", 'triple """ quote', "\\Upsilon and \\N{nothing}", "C:\\Users\\anna\\fits",
             "opening rate of the activation gate from the squid axon model, rescaled to 37 C",
             "see Hodgkin_Huxley_1952_squid_axon_model_parameters_table_3: value", "aaaaaaaaaaaaaaaaaaaaaaaaaaaaaaaaaaaa!"]
+# characters that str.splitlines() treats as line boundaries but the grammar does not: the rest of the comment must stay comment
+SEPARATORS = ["legacy alias:\x0ca_old = 3.0", "vertical\x0btab zz = 1", "file\x1csep", "group\x1dsep q = 2", "record\x1esep",
+              "next\x85line a_new = 4.0", "line\u2028separator dx_dt = 0", "paragraph\u2029separator", "unit\x1fsep"]
+COMMENTS += SEPARATORS
 
 BASES = [
     ("parameters(sigma=12.0, rho=21.0, beta=2.4)\nstates(x=1.0, y=2.0, z=3.05)\n"
@@ -41,6 +45,11 @@ BASES = [
      'parameters("A", a=0.5)\nparameters("B", b=ScalarParam(2.0, unit="ms"))\n'
      'expressions("A")\nia = a*x + y\ndx_dt = -ia\n'
      'expressions("B")\nib = b*y - ia\ndy_dt = ib/b\n'),
+    # declarations shared by two components (accepted: identical definitions), each carrying a unit annotation
+    ('parameters("M", Cm=ScalarParam(1.0, unit="uF"), g=0.3)\nparameters("S", Cm=ScalarParam(1.0, unit="uF"), amp=2.0)\n'
+     'states("M", V=-80.0)\nstates("S", w=0.0)\n'
+     'expressions("M")\nvshift = V + 40 # mV\ndV_dt = -g*vshift/Cm + w\n'
+     'expressions("S")\nvshift = V + 40 # mV\ndw_dt = amp*vshift/Cm - w\n'),
 ]
 
 
@@ -97,6 +106,13 @@ def layout_edits(base: str):
     out["unit-number"] = base.replace('unit="mV"', 'unit="2"')
     out["unit-broken"] = base.replace('unit="mV"', 'unit="mV)"')
     out["cr-only"] = "\r".join(lines) + "\r"
+    # one of two identical declarations gets another (valid) unit / loses its unit
+    out["unit-one-of-two-changed"] = base.replace('unit="uF"', 'unit="pF"', 1)
+    out["unit-second-of-two-changed"] = base[::-1].replace('unit="uF"'[::-1], 'unit="F"'[::-1], 1)[::-1]
+    out["unit-one-of-two-removed"] = base.replace('Cm=ScalarParam(1.0, unit="uF")', "Cm=1.0", 1)
+    out["unit-one-of-two-dimensionless"] = base.replace('unit="uF"', 'unit="1"', 1)
+    out["trailing-unit-one-of-two-changed"] = base.replace("# mV", "# V", 1)
+    out["trailing-unit-one-of-two-removed"] = base.replace(" # mV", "", 1)
     return {k: v for k, v in out.items() if v != base}
 
 
@@ -108,6 +124,8 @@ def tasks(tier, seed):
         combos = [(p, c) for p in PLACES for c in COMMENTS]
         if tier == "quick":
             keep = [(p, c) for p, c in combos if p in ("inside-expressions", "trailing") and c in ("a plain comment", "mV", "(", "1/0", "", "x")]
+            keep += [(p, c) for k, c in enumerate(SEPARATORS) for p in (PLACES[k % len(PLACES)], "trailing")]
+            keep = list(dict.fromkeys(keep))
             rest = [x for x in combos if x not in keep]
             combos = keep + rnd.sample(rest, 60)
         headed = 'expressions("' in base
@@ -138,7 +156,11 @@ text = sys.stdin.read()
 try:
     ode = pipeline.load(text)
     code = pipeline.gen_py(ode, schemes=["explicit_euler"])
-    memb = {a.name: list(a.components) for a in tuple(ode.states) + tuple(ode.parameters) + tuple(ode.intermediates) + tuple(ode.state_derivatives)}
+    memb = {}
+    for comp in ode.components:      # a name declared identically in two components belongs to both
+        for a in tuple(comp.states) + tuple(comp.parameters) + tuple(comp.intermediates) + tuple(comp.state_derivatives):
+            memb.setdefault(a.name, set()).update(a.components)
+    memb = {k: sorted(v) for k, v in memb.items()}
     print("RESULT" + json.dumps({"ok": True, "code": code, "membership": memb}))
 except BaseException as e:
     print("RESULT" + json.dumps({"ok": False, "error": f"{type(e).__name__}: {str(e)[:200]}"}))
@@ -181,7 +203,11 @@ def work(task):
         prog.fact("loads", False, kind, f"inert edit [{edit}] makes a loadable model fail: {r['error']}")
         return prog.result()
     prog.fact("loads", True, "", "")
-    memb0 = {a.name: list(a.components) for a in tuple(ode0.states) + tuple(ode0.parameters) + tuple(ode0.intermediates) + tuple(ode0.state_derivatives)}
+    memb0 = {}
+    for comp in ode0.components:
+        for a in tuple(comp.states) + tuple(comp.parameters) + tuple(comp.intermediates) + tuple(comp.state_derivatives):
+            memb0.setdefault(a.name, set()).update(a.components)
+    memb0 = {k: sorted(v) for k, v in memb0.items()}
     prog.fact("membership", r["membership"] == memb0, "MembershipChanged",
               f"inert edit [{edit}] changes component membership: " + str({k: (memb0.get(k), v) for k, v in r["membership"].items() if memb0.get(k) != v})[:200])
     from ..views import PyView
